@@ -220,7 +220,7 @@ def run(ctx):
                 "each case samples every value below 2^(pattern width+1) on a real covergroup; a case is non-trivial if it has at "
                 "least one wildcard bit; distinct by (specs, kind, count)" % (4 if ctx.quick() else 6, 4 if ctx.quick() else 6),
         "samples": [allc[0], allc[5], allc[len(allc) // 2], allc[-20]],
-        "exhaustive": True,
+        "exhaustive": False,
         "exhaustive_part": "%d cases: all (value,mask) pairs below 2^%d, both bin kinds" % (n_exh, 4 if ctx.quick() else 6),
         "distribution": kinds,
         "known_region_cases": stats["known_region"],
